@@ -300,6 +300,7 @@ type FuncContract struct {
 	Inline   bool   // never use as a call contract; inline at call sites
 	Trusted  bool   // contract is assumed, body is not verified
 	PerReturn bool  // check postconditions and frame at every return separately
+	SplitDispatch bool // one VC per dynamic type at closed-world interface calls (instead of merging the alternatives)
 	Splits   []Split
 	File     string
 	Line     int
@@ -388,7 +389,7 @@ func (cs *ContractSet) parseFile(path, pkg string) error {
 	}
 	var items []item
 	keywords := map[string]bool{"func": true, "lemma": true, "requires": true, "ensures": true, "modifies": true,
-		"loop": true, "let": true, "panics": true, "replay": true, "import": true, "inline": true, "trusted": true, "perreturn": true,
+		"loop": true, "let": true, "panics": true, "replay": true, "import": true, "inline": true, "trusted": true, "perreturn": true, "splitdispatch": true,
 		"split": true, "stable": true, "mayalias": true, "assume": true, "define": true, "fileguard": true, "hint": true, "qfonly": true}
 	for i, ln := range strings.Split(string(data), "\n") {
 		t := strings.TrimSpace(ln)
@@ -692,6 +693,8 @@ func (cs *ContractSet) parseFile(path, pkg string) error {
 				cur.Trusted = true
 			case "perreturn":
 				cur.PerReturn = true
+			case "splitdispatch":
+				cur.SplitDispatch = true
 			case "stable":
 				// stable E: calls whose effect is unknown (no modifies clause) are assumed not to change the
 				// location E (an assumption, listed in the evidence)
